@@ -34,7 +34,10 @@ std::string lines_diff(const std::vector<std::string> &x, const std::vector<std:
 }
 
 void reopen_point(Ctx &c, Graph &g, const std::string &after) {
-    Observer ob; ONode t0 = ob.file(g.f); size_t nodes = count_nodes(t0);
+    // unobserved: the writing session closes without having looked at its own content (the pre-close snapshot calls every getter, which would hide
+    // state that only a getter brings into existence); then what a ReadOnly session reads must be what a ReadWrite session reads
+    bool unobserved = c.rng.chance(0.25); if (unobserved) c.count("unobserved_closes");
+    Observer ob; ONode t0; if (!unobserved) t0 = ob.file(g.f); size_t nodes = unobserved ? 0 : count_nodes(t0); ONode t_ro;
     // entity handles of the closing session may still be alive while the file is reopened (kept until the end of this function)
     std::vector<Block> hb; std::vector<DataArray> ha; std::vector<Section> hs;
     auto grab = [&] { if (!c.rng.chance(0.5)) return; try { Block b; if (g.anyBlock(b)) { hb.push_back(b); DataArray a; if (g.anyArray(b, a)) ha.push_back(a); } Section s; if (g.anySection(s)) hs.push_back(s); } catch (...) {} };
@@ -51,6 +54,7 @@ void reopen_point(Ctx &c, Graph &g, const std::string &after) {
         if (via_link) g.path = link_path;
         try { g.open(m); g.path = real_path; } catch (std::exception &e) { g.path = real_path; c.check(false, std::string("C02/reopen-failed/") + mn, std::string("reopen threw: ") + e.what() + " (live handles of the previous session: " + str(hb.size() + ha.size() + hs.size()) + (via_link ? ", via symlink" : "") + ")"); if (m == FileMode::ReadWrite) { hb.clear(); ha.clear(); hs.clear(); g.open(FileMode::ReadWrite); } else continue; return; }
         Observer o2; ONode t1 = o2.file(g.f);
+        if (unobserved) { if (m == FileMode::ReadOnly) { t_ro = t1; grab(); g.close(); continue; } std::string du = tree_diff(t_ro, t1); c.check(du.empty(), "C02/tree-changed/ReadOnly-vs-ReadWrite-after-unobserved-close", [&] { return du + "\n(before = what the ReadOnly session read, after = what the ReadWrite session read; last operation before close: " + after + ")"; }); t0 = t1; nodes = count_nodes(t0); c.count("reopen_comparisons"); continue; }
         std::string d = tree_diff(t0, t1);
         c.check(d.empty(), std::string("C02/tree-changed/") + mn, [&] { return d + "\n(" + str(nodes) + " nodes, last operation before close: " + after + ")"; });
         c.count("reopen_comparisons"); c.count("nodes_compared", (long)nodes); c.count("getters_called", o2.getters);
@@ -68,13 +72,18 @@ void reopen_point(Ctx &c, Graph &g, const std::string &after) {
 void run_case(Ctx &c) {
     Graph g(c); g.create(c.path("c02.nix"));
     int nops = (int)c.rng.range(30, 60); std::string last = "create";
+    // long-lived handles, as an application keeps them: while one is open HDF5 serves that object from its caches, so what the session reads
+    // is not necessarily what reached the file (released at the next reopen point, after the snapshot)
+    std::vector<Property> long_props; std::vector<DataArray> long_arrays;
     for (int i = 0; i < nops; i++) {
+        if (c.rng.chance(0.3)) { try { Section s; if (g.anySection(s) && s.propertyCount()) long_props.push_back(s.getProperty(c.rng.u(s.propertyCount()))); Block b; DataArray a; if (c.rng.chance(0.5) && g.anyBlock(b) && g.anyArray(b, a)) long_arrays.push_back(a); c.count("long_lived_handles");
+            if (!long_props.empty() && c.rng.chance(0.6)) { Property lp = c.rng.pick(long_props); if (lp.isValidEntity()) { c.op("values through a long-lived property handle"); lp.values(g.gen_values(lp.dataType(), 2 + c.rng.u(4))); } } } catch (...) {} }
         g.step();
         last = c.trace_head.empty() ? "?" : (c.nops <= (long)c.trace_head.size() ? c.trace_head.back() : "op" + str(c.nops));
         if (c.rng.chance(0.06)) { c.op("flush"); g.f.flush(); }
-        if (c.rng.chance(0.08)) reopen_point(c, g, last);
+        if (c.rng.chance(0.08)) { reopen_point(c, g, last); long_props.clear(); long_arrays.clear(); }
     }
-    reopen_point(c, g, last);
+    reopen_point(c, g, last); long_props.clear(); long_arrays.clear();
     c.nontrivial = c.nops > 20;
     g.close();
 }
